@@ -24,7 +24,7 @@ use zipora::memory::{MmapVec, MmapVecConfig, MmapVecConfigBuilder};
 mod breadth;
 
 const HEADER: &str = r#"From ZV.Common Require Import Base Run.
-From ZV.C10 Require Import Model ModelValVec32 ModelArena ModelStrVec ModelFixedLen ModelFastVecCopy ModelCacheVec ModelBitPacked ModelCases.
+From ZV.C10 Require Import Model ModelValVec32 ModelArena ModelStrVec ModelFixedLen ModelFastVecCopy ModelCacheVec ModelBitPacked ModelRingBulk ModelCases.
 Open Scope N_scope.
 "#;
 
@@ -316,6 +316,55 @@ fn ring_history(cx: &mut Ctx, cap0: u64, ctor: u64, ops: &[Vec<u64>], coq: Coq) 
     if wrapped_growth { cx.sum.dist("ring_growth_while_wrapped"); }
     if !failed && (coq == Coq::Always || (coq == Coq::Budget && cx.room(cell))) {
         cx.shards.push(format!("C0 (CRing {} [{}] [{}])", cap0, coq_ops.join("; "), expect.join("; ")), cj);
+    }
+}
+
+/// AutoGrowCircularQueue::pop_bulk into a slice whose values are identified (M+S: coq/C10/ModelRingBulk.v): `rot` push/pop pairs put
+/// the head at an offset, `fill` elements are pushed (in bulk when `bulk`), then pop_bulk into a slice of `m` counted values. Compared:
+/// the number returned, the slice afterwards, the values destroyed by the call (each overwritten value once, none of the others),
+/// len / capacity / head / tail; afterwards everything is dropped and nothing may stay alive.
+fn ring_into_case(cx: &mut Ctx, cap0: u64, rot: u64, fill: u64, bulk: bool, m: u64, coq: Coq) {
+    let cell = "AutoGrowCircularQueue";
+    let (rot, fill, m) = (rot.min(64), fill.min(64), m.min(64));
+    cx.sum.eval(cell, &format!("ring_into {} {} {} {} {}", cap0, rot, fill, bulk, m), true);
+    let cj = json!({"cell": "ring_into", "cap": cap0, "rot": rot, "fill": fill, "bulk": bulk, "m": m});
+    if journal(&cj) { return; }
+    reset_counters();
+    let mut next_id: u64 = 0;
+    let mut coq_ops: Vec<String> = vec![];
+    let r = guarded(|| -> Result<String, String> {
+        let mut q: AutoGrowCircularQueue<El> = AutoGrowCircularQueue::with_capacity(cap0 as usize);
+        let mut shadow: VecDeque<u64> = VecDeque::new();
+        for _ in 0..rot { let id = next_id; next_id += 1; coq_ops.push(format!("TQ (PushBack {})", id)); coq_ops.push("TQ PopFront".into());
+            q.push_back(el(id)).map_err(|e| format!("push_back refused: {:?}", e))?; if q.pop_front().map(|e| e.id) != Some(id) { return Err("pop_front of the only element differs".into()); } }
+        if bulk && fill > 0 { let ids: Vec<u64> = (0..fill).map(|i| next_id + i).collect(); next_id += fill; coq_ops.push(format!("TQ (PushBulk {})", nlist(&ids)));
+            let items: Vec<El> = ids.iter().map(|&i| el(i)).collect(); q.push_bulk(&items).map_err(|e| format!("push_bulk refused: {:?}", e))?; shadow.extend(ids); }
+        else { for _ in 0..fill { let id = next_id; next_id += 1; coq_ops.push(format!("TQ (PushBack {})", id)); q.push_back(el(id)).map_err(|e| format!("push_back refused: {:?}", e))?; shadow.push_back(id); } }
+        let out_ids: Vec<u64> = (0..m).map(|i| next_id + i).collect(); next_id += m;
+        let mut out: Vec<El> = out_ids.iter().map(|&i| el(i)).collect();
+        take_drops();
+        let n = q.pop_bulk(&mut out);
+        let mut drops = take_drops(); drops.sort();
+        let got: Vec<u64> = out.iter().map(|e| e.id).collect();
+        let k = (m as usize).min(shadow.len());
+        let mut want: Vec<u64> = shadow.drain(..k).collect(); want.extend(out_ids[k..].iter().copied());
+        if n != k { return Err(format!("pop_bulk into {} slots with {} elements queued returned {}", m, k + shadow.len(), n)); }
+        if got != want { return Err(format!("the slice holds {:?} after pop_bulk, `out[i] = pop_front()` gives {:?}", got, want)); }
+        if drops != out_ids[..k] { return Err(format!("pop_bulk destroyed {:?}; the {} overwritten values of the slice are {:?} (each is dropped exactly once, nothing else)", drops, k, &out_ids[..k])); }
+        let st = q.performance_stats();
+        if q.len() != shadow.len() || q.front().map(|e| e.id) != shadow.front().copied() { return Err("len / front after pop_bulk differ from a VecDeque".into()); }
+        let mut e: Vec<i128> = vec![n as i128]; e.extend(got.iter().map(|&x| x as i128)); e.push(-7); e.extend(drops.iter().map(|&x| x as i128));
+        e.extend([-8, st.length as i128, st.capacity as i128, st.head_index as i128, st.tail_index as i128]);
+        drop(out); drop(q);
+        if let Some(p) = live_mismatch([].iter(), next_id) { return Err(format!("after Drop of the slice and the queue: {}", p)); }
+        Ok(zlist(&e))
+    });
+    match r {
+        Err(p) => cx.sum.fail(cell, None, cj, &format!("panicked: {}", p)),
+        Ok(Err(d)) => cx.sum.fail(cell, None, cj, &d),
+        Ok(Ok(e)) => if coq == Coq::Always || (coq == Coq::Budget && cx.room("AutoGrowCircularQueue/pop_bulk into a slice")) {
+            let out_ids: Vec<u64> = (next_id - m..next_id).collect();
+            cx.shards.push(format!("CRingInto {} [{}] {} {}", cap0, coq_ops.join("; "), nlist(&out_ids), e), cj); }
     }
 }
 
@@ -1824,6 +1873,7 @@ fn run_one(cx: &mut Ctx, c: &Value, args: &Args) {
         "fastvec_probe" => fastvec_probe(cx, args, c["mode"].as_u64().unwrap_or(0)),
         "strvec" => strvec_history(cx, c["ops"].as_array().map(|a| a.as_slice()).unwrap_or(&[]), Coq::Always),
         "fixedlen" => fixedlen_history(cx, cap, c["ops"].as_array().map(|a| a.as_slice()).unwrap_or(&[]), Coq::Always),
+        "ring_into" => ring_into_case(cx, cap, c["rot"].as_u64().unwrap_or(0), c["fill"].as_u64().unwrap_or(0), c["bulk"].as_bool().unwrap_or(false), c["m"].as_u64().unwrap_or(0), Coq::Always),
         "bitpacked" => bitpacked_history(cx, cap == 64, c["ops"].as_array().map(|a| a.as_slice()).unwrap_or(&[]), Coq::Always),
         "fixedlen_limit" => fixedlen_limit(cx),
         "str" => { let strs: Vec<String> = c["strs"].as_array().map(|a| a.iter().map(|s| s.as_str().unwrap_or("").to_string()).collect()).unwrap_or_default();
@@ -1850,7 +1900,7 @@ fn run_inner(args: &Args) {
     for (c, n) in [("AutoGrowCircularQueue", 750), ("FixedCircularQueue", 100), ("FastVec<El>", 150), ("ValVec32<El>", 120), ("ValVec32<u64>", 80),
                    ("FastVec<u64>", 80), ("FastVec<u8>", 80), ("SortableStrVec", 80), ("FixedLenStrVec", 60),
                    ("CacheAlignedVec<El>", 40), ("CacheAlignedVec<u8>", 30), ("BumpVec<El>", 30),
-                   ("BitPackedStringVec32", 30), ("BitPackedStringVec64", 30)] {
+                   ("BitPackedStringVec32", 30), ("BitPackedStringVec64", 30), ("AutoGrowCircularQueue/pop_bulk into a slice", 40)] {
         cx.budgets.insert(c, (0, n * k));
     }
     for c in ["AutoGrowCircularQueue", "FixedCircularQueue", "FastVec<El>"] { cx.sum.cell_status(c, "M+S"); }
@@ -1891,6 +1941,13 @@ fn run_inner(args: &Args) {
         }
     }
     cx.sum.dist_max("enumerated_ring_histories", cx.sum.evaluations);
+    // pop_bulk into a slice of identified values: every head offset, fill level and slice length on capacities 2 and 4 (+ growth), both ways of filling
+    let mut into_n = 0u64;
+    for cap0 in [2u64, 4, 8] { for rot in 0..=cap0 { for fill in 0..=cap0 + 1 { for m in [0, 1, 2, cap0 - 1, cap0, cap0 + 2] { for bulk in [false, true] {
+        if m == 0 && bulk { continue; }
+        into_n += 1;
+        ring_into_case(&mut cx, cap0, rot, fill, bulk, m, if into_n % 35 == 0 || args.thorough { Coq::Budget } else { Coq::Never });
+    } } } } }
     let rounds = if args.thorough { 12000 } else { 700 };
     let vec_all: [u64; 11] = [0, 1, 2, 3, 4, 5, 6, 7, 8, 9, 10];
     for i in 0..rounds {
